@@ -411,7 +411,7 @@ def check_find(p, caller, past, pattern, pclass, scope_path=None, block_scope=No
             if is_stmt:
                 _, apath, attr, k0 = c["key"]
                 stmts = getattr(R.resolve(ir, apath), attr)
-                if _hole_ambiguity(past, stmts[k0:]) and not _matches_with_empty_holes(past, stmts[k0:]):
+                if _hole_ambiguity(past, stmts[k0:]):
                     extra = {"mechanism": "stmt_hole_lookahead_no_backtracking"}
             V("missing_match", _position_of(ir, c["key"]),
               f"{pattern!r}: position {c['key']} matches but was not returned "
